@@ -38,8 +38,6 @@ pub mod valid {
 
     #[inline]
     pub fn value(mut bytes: &[u8]) -> Result<std::borrow::Cow<str>, super::super::Error> {
-        use std::borrow::Cow;
-
         if bytes.len() >= 2 && bytes[0] == b'"' && bytes[bytes.len() - 1] == b'"' {
             bytes = &bytes[1..(bytes.len() - 1)]
         }
@@ -52,11 +50,9 @@ pub mod valid {
                 _ => ()
             }
         }
-        // SAFETY: `bytes` here os obviously ASCII
-        Ok(match crate::percent_decode(bytes) {
-            Cow::Borrowed(b) => Cow::Borrowed(unsafe {std::str::from_utf8_unchecked(b)}),
-            Cow::Owned(b) => Cow::Owned(unsafe {String::from_utf8_unchecked(b)})
-        })
+        // `bytes` here is ASCII, but what it percent-decodes to is anything ( `%FF` )
+        crate::percent_decode_utf8(bytes)
+            .map_err(|_| serde::de::Error::custom("invalid Cookie value: not UTF-8"))
     }
 }
 
